@@ -534,16 +534,16 @@ impl WorldB {
                     // a spend deducts coins and changes nothing else: the (unexpired) allowance keeps its
                     // expiry even when the spend exhausts it
                     if kind == "execute" && check_expiry_of == Some(i) && !pre.allow[i].0.is_empty() && post.allow[i].1 != pre.allow[i].1 {
-                        self.viol(
-                            out,
-                            "C08",
-                            "spend-changed-expiry",
-                            json!({"exhausted": true}),
-                            format!(
-                                "execute: the spend exhausted {}'s allowance and its expiry changed {:?} -> {:?}",
-                                self.universe[i], pre.allow[i].1, post.allow[i].1
-                            ),
+                        let d = format!(
+                            "execute: the spend exhausted {}'s allowance and its expiry changed {:?} -> {:?}",
+                            self.universe[i], pre.allow[i].1, post.allow[i].1
                         );
+                        self.viol(out, "C08", "spend-changed-expiry", json!({"exhausted": true}), d.clone());
+                        // C17: apart from deducting what it relays, a subkey's own call must not alter the
+                        // allowance an admin gave it
+                        if !is_admin {
+                            self.viol(out, "C17", "allowance-altered-by-non-admin", json!({"field": "expires"}), d);
+                        }
                     }
                 } else {
                     let want = if check_expiry_of == Some(i) { exp_allow[i].1 } else { pre.allow[i].1 };
